@@ -121,6 +121,9 @@ def binop(E, op, a, b, node, fr):
             raise PyRaise(type(ex).__name__, line)
     if isinstance(a, tuple) and isinstance(b, tuple) and isinstance(op, ast.Add):
         return a + b
+    if (isinstance(a, str) or (isinstance(a, SV) and a.ty == TStr)) and \
+            (isinstance(b, str) or (isinstance(b, SV) and b.ty == TStr)) and isinstance(op, ast.Add):
+        return SV(z3.Concat(lift(a).t, lift(b).t), TStr)
     if isinstance(a, (str, Opaque)) or isinstance(b, (str, Opaque)):
         return Opaque("str-op")
     # lists
@@ -332,7 +335,9 @@ def contains_term(E, x, coll, node, fr):
         if coll.ty == TBytes and is_byteslike(x):
             return z3.Contains(coll.t, lift(x).t)
     if isinstance(coll, ExtRef):
-        return E.fresh("member", TBool).t
+        if coll.name in CONTAINS_EXT:
+            return CONTAINS_EXT[coll.name](E, x)
+        raise Unsupported("membership in external collection %s" % coll.name)
     raise Unsupported("membership in %r" % (coll,))
 
 
@@ -551,6 +556,8 @@ def get_attr(E, obj, attr, fr, node):
             kind, cd, fields = c
             if attr in fields:
                 return fields[attr]
+            if attr in getattr(cd, "virtual", {}):
+                return Bound(obj, attr)
             mk = find_method(E, cd.key, attr)
             if mk is not None:
                 mnode, _, _ = E.repo.find(mk)
@@ -566,6 +573,12 @@ def get_attr(E, obj, attr, fr, node):
             if attr in cd.fields:
                 raise PyRaise("AttributeError", line)
             raise Unsupported("attribute %s of %s not declared" % (attr, cd.key))
+        if c[0] == "ext":
+            for h in EXT_ATTR:
+                r = h(E, obj, attr)
+                if r is not None:
+                    return r
+            return Bound(obj, attr)
         if c[0] == "slice" and attr in ("start", "stop", "step"):
             return c[1][("start", "stop", "step").index(attr)]
         if c[0] == "slice" and attr != "indices":
@@ -601,7 +614,12 @@ def get_attr(E, obj, attr, fr, node):
                 return ("modpath", dotted, cand)
         raise Unsupported("no %s in %s" % (attr, obj[1]))
     if isinstance(obj, ExtRef):
-        return ExtRef(obj.name + "." + attr)
+        from .externals import EXT_CONSTS
+        full = obj.name + "." + attr
+        if full in EXT_CONSTS:
+            E.trusted_used.add("ext:" + full)
+            return EXT_CONSTS[full]
+        return ExtRef(full)
     if isinstance(obj, ClassRef):
         cv = class_attr(E, obj.key, attr)
         if cv is not NOATTR:
@@ -637,6 +655,8 @@ def get_attr(E, obj, attr, fr, node):
 
 
 NOATTR = object()
+EXT_ATTR = []        # hooks: f(E, ref, attr) -> value | None   for attribute reads on external objects
+CONTAINS_EXT = {}    # external collection name -> f(E, x) -> z3 Bool
 
 
 def class_attr(E, clskey, attr):
@@ -825,6 +845,11 @@ def apply(E, fv, args, kwargs, fr, node):
         return ExcVal(fv.name, tuple(args))
     if isinstance(fv, Opaque):
         return Opaque("call")
+    if isinstance(fv, Ref) and E.cell(fv)[0] == "ext":
+        from .externals import ext_method
+        return ext_method(E, fv, E.cell(fv), "__call__", args, kwargs, fr, node)
+    if isinstance(fv, Ref) and E.cell(fv)[0] == "obj":
+        return call_method(E, fv, "__call__", args, kwargs, fr, node)
     raise Unsupported("call of %r at line %d" % (fv, line))
 
 
@@ -1084,6 +1109,8 @@ def call_method(E, recv, name, args, kwargs, fr, node):
             cd = c[1]
             if name in c[2]:  # callable stored in a field (e.g. config.prf_f)
                 return apply(E, c[2][name], args, kwargs, fr, node)
+            if name in getattr(cd, "virtual", {}):
+                return cd.virtual[name](E, recv, args, kwargs, fr, node)
             mk = find_method(E, cd.key, name)
             if mk is None:
                 if E.catches("AttributeError") or E.catches("BaseException"):
